@@ -4,9 +4,14 @@
   panics as `none`, the `Iter` state machine) and relate it to a flat row-major list:
     abstraction  `flat1/2/3` (unlabelled), `flat? a.toU` (labelled, `toU` erases the wrappers),
     invariant    `Shape1/2/3` = "the storage has the declared shape" (all rows have the declared length).
-  Helper lemmas: SLV/Refine/ArrLemmas{,2,..,8}.lean.  Ranks 1..3, both families, every shape, every cell content.
+  Helper lemmas: SLV/Refine/ArrLemmas{,2,..,8}.lean, ArrProg{1,2,3,U1,U2,U3,L1,L2,L3}.lean.  Ranks 1..3, both families, every shape, every cell content.
 -/
-import SLV.Refine.ArrLemmas8
+import SLV.Refine.ArrProgU1
+import SLV.Refine.ArrProgU2
+import SLV.Refine.ArrProgU3
+import SLV.Refine.ArrProgL1
+import SLV.Refine.ArrProgL2
+import SLV.Refine.ArrProgL3
 
 namespace SLV.Props.C17
 open SLV.MArr
@@ -421,5 +426,66 @@ theorem C17_labelled_shape {d0 d1 d2 : Nat} :
    fun _ _ h => L2.fromMultiIter_shape h, fun _ _ h => L3.fromMultiIter_shape h,
    fun _ _ h => (L1.new_shape h).1, fun _ _ h => (L2.fromIter_shape h).1, fun _ _ h => (L3.fromIter_shape h).1,
    fun _ _ _ _ h => (L2.fromIter_shape h).1, fun _ _ _ _ _ h => (L3.fromIter_shape h).1⟩
+
+/-! ## programs -/
+
+/-- Every PROGRAM (list of ops of the harness' op language: build from function / flat / nested sequence, get, set via
+    index_mut, iter_mut, down / down_mut, clone, ==, swap, conv, as_ref, zeros / default, product2/3(_iter), try_from,
+    dumps by iteration / iter_with / indexing, indexes, keys, len) produces the same observation trace — the tokens
+    printed after every step — on the nested model of the array kind selected by family / index type / shape
+    (`runNested`: MArr1/2/3, MArrD1/2/3) and on the flat row-major specification (`runSpec`), provided no step builds
+    ragged unlabelled storage (`Op.safe`: the only ops the specification refuses to describe are an unlabelled rank-1
+    `from_iter` of the wrong length and an unlabelled nested literal with a wrong innermost row length — outside the
+    property, see `C17_ragged_observation`).  Proof: per-op refinement (`Refines`, one instance per kind) and
+    induction over the op list (`run_sim`). -/
+theorem C17_programs (labelled newtype : Bool) (dims : List Nat) (prog : List Op)
+    (hnt : labelled = false → newtype = false)
+    (hsafe : ∀ op ∈ prog, op.safe (kindSpec labelled newtype dims)) :
+    ∀ tr, runNested labelled newtype dims prog = some tr → tr = runSpec labelled newtype dims prog := by
+  intro tr h
+  cases labelled with
+  | false =>
+    have hn : newtype = false := hnt rfl
+    subst hn
+    match dims, h, hsafe with
+    | [a], h, hsafe =>
+      simp only [runNested, Option.some.injEq] at h; subst h
+      exact run_sim (refinesU1 a) prog hsafe
+    | [a, b], h, hsafe =>
+      simp only [runNested, Option.some.injEq] at h; subst h
+      exact run_sim (refinesU2 a b) prog hsafe
+    | [a, b, c], h, hsafe =>
+      simp only [runNested, Option.some.injEq] at h; subst h
+      exact run_sim (refinesU3 a b c) prog hsafe
+    | [], h, _ => simp [runNested] at h
+    | _ :: _ :: _ :: _ :: _, h, _ => simp [runNested] at h
+  | true =>
+    match dims, h, hsafe with
+    | [a], h, hsafe =>
+      simp only [runNested, Option.some.injEq] at h; subst h
+      exact run_sim (refinesL1 newtype a) prog hsafe
+    | [a, b], h, hsafe =>
+      simp only [runNested, Option.some.injEq] at h; subst h
+      exact run_sim (refinesL2 newtype a b) prog hsafe
+    | [a, b, c], h, hsafe =>
+      simp only [runNested, Option.some.injEq] at h; subst h
+      exact run_sim (refinesL3 newtype a b c) prog hsafe
+    | [], h, _ => simp [runNested] at h
+    | _ :: _ :: _ :: _ :: _, h, _ => simp [runNested] at h
+
+/-- the model is defined for exactly the ranks the crate implements -/
+theorem C17_programs_defined (labelled newtype : Bool) (dims : List Nat) (prog : List Op) :
+    (runNested labelled newtype dims prog).isSome = true ↔ (1 ≤ dims.length ∧ dims.length ≤ 3) := by
+  cases labelled <;>
+  · match dims with
+    | [] => simp [runNested]
+    | [_] => simp [runNested]
+    | [_, _] => simp [runNested]
+    | [_, _, _] => simp [runNested]
+    | _ :: _ :: _ :: _ :: _ => simp [runNested]
+
+/-- non-vacuity: a concrete safe program on a 2 x 2 labelled (newtype index) array, with an out-of-shape read -/
+example : runNested true true [2, 2] [.fn 1, .imadd 3, .get [1, 0], .get [0, 2], .down 1] =
+    some (runSpec true true [2, 2] [.fn 1, .imadd 3, .get [1, 0], .get [0, 2], .down 1]) := by decide
 
 end SLV.Props.C17
